@@ -286,6 +286,43 @@ pub fn run(args: &Args) -> i32 {
                 loc.sample(json!({"case": desc(), "result": r.as_ref().map(|_| "Ok").map_err(|e| e.clone())}));
             }
         });
+    // ---- every pair of boards and every pair of chips mixed in one message (device ids that differ in few bits)
+    {
+        let p3 = &payloads[2];
+        let l = p3.len();
+        let s = l.div_ceil(3);
+        let sizes = [s, s, l - 2 * s];
+        rep.run("board-and-chip-pairs", 71 * 71 * 3 + 4 * 4 * 3, 60, true, "a 3-chunk message of board a (all 71) in which chunk 0 / 1 / 2 comes from board b (all 70 others); the same for all ordered pairs of the 4 chips: reassembly must fail", |idx, loc| {
+            let (boards, x) = if idx < 71 * 71 * 3 { (true, idx) } else { (false, idx - 71 * 71 * 3) };
+            let (a, b, pos) = if boards { ((x / 3 / 71) as usize, (x / 3 % 71) as usize, (x % 3) as usize) } else { ((x / 3 / 4) as usize, (x / 3 % 4) as usize, (x % 3) as usize) };
+            if a == b {
+                return;
+            }
+            let mut off = 0;
+            let chunks: Vec<Vec<u8>> = (0..3).map(|i| {
+                let part = p3[off..off + sizes[i]].to_vec();
+                off += sizes[i];
+                let dev = if boards { PWB_BOARDS[if i == pos { b } else { a }].2 } else { PWB_BOARDS[5].2 };
+                let chip = if boards { 1 } else if i == pos { b as u8 } else { a as u8 };
+                ref_chunk_encode(&RefChunk { device_id: dev, packet_sequence: 9, channel_sequence: 1, chip, flags: (i == 2) as u8, chunk_id: i as u16, payload: part })
+            }).collect();
+            let what = json!({"kind": if boards { "boards" } else { "chips" }, "message_of": if boards { json!(PWB_BOARDS[a].0) } else { json!(a) }, "foreign": if boards { json!(PWB_BOARDS[b].0) } else { json!(b) }, "foreign_chunk": pos});
+            let h = hash64(&("pairs", idx));
+            match reassemble(&chunks) {
+                Err(p) => {
+                    loc.note(h, true, "panic");
+                    loc.violation(format!("panic:reassembly:{}", panic_site(&p)), json!({"case": what, "panic": p}));
+                }
+                Ok(r) => {
+                    loc.note(h, true, if r.is_ok() { "ok" } else { "err" });
+                    if r.is_ok() {
+                        loc.violation(format!("reassembly:fault-accepted:{}", if boards { "foreign-board" } else { "foreign-chip" }), json!({"case": what}));
+                    }
+                }
+            }
+        });
+    }
+
     // ---- the same chunk multisets delivered as PC banks to the event builder (the library's own caller of the
     //      reassembly): a fault that must fail in the reassembly must not be masked by the way the caller
     //      collects the chunks, and the outcome must not depend on the bank order
